@@ -38,6 +38,7 @@ From ASModel Require Import Base State Orderings_gen Step Run Progress Hist Loca
 From ASModel Require Import GenDefs Gen1 Gen2 Gen EnvDefs Env4 Env AccDefs Acc1 Acc2 Acc3 Acc4 Acc5 Acc6 Acc7 Acc.
 From ASModel Require Import ProtDefs Prot1 Prot11 Prot16 Prot Typed LinDefs Lin2 Lin Safe1 Safe2 Safe7 Safe8 Safe Main.
 From ASModel Require Import Stale StaleInv.
+From ASModel Require Import Stale2 Stale2Inv.
 
 Theorem C12_only_own_storage : forall cf s t x c,
   store_effect c (mem (sh s)) (mem (sh (fst (step cf s t x)))) (snd (step cf s t x))
@@ -125,3 +126,21 @@ Theorem C12_load_own_container_stale cf inits progs sched :
 Proof. exact (StaleInv10.C12_load_own_container_stale cf inits progs sched). Qed.
 
 Print Assumptions C12_load_own_container_stale.
+
+(** ** With all four stale loads of [Stale2.step_stale2] (see Props/C01.v). *)
+Theorem C12_load_own_container_stale2 cf inits progs sched :
+  RunOKS2 cf inits progs sched ->
+  let s0 := init_state inits progs in
+  forall t i c h (full : bool) pa pb xa tb xb,
+  nth_error (t_prog (thr s0 t)) (N.to_nat i) = Some (if full then CLoadFull c h else CLoad c h) ->
+  (pa <= pb)%nat ->
+  nth_error sched pa = Some (t, xa) ->
+  t_status (thr (StS2 cf s0 sched pa) t) = Running -> t_stack (thr (StS2 cf s0 sched pa) t) = [] ->
+  t_cmdi (thr (StS2 cf s0 sched pa) t) = i ->
+  nth_error sched pb = Some (tb, xb) ->
+  t_cmdi (thr (StS2 cf s0 sched pb) t) = i -> t_cmdi (thr (StS2 cf s0 sched (S pb)) t) = i + 1 ->
+  exists v k, handle_ptr (hnd (StS2 cf s0 sched (S pb)) h) = Some v /\
+    (pa + 1 <= k <= pb + 1)%nat /\ mem (sh (StS2 cf s0 sched k)) (LStore c) = v.
+Proof. exact (Stale2Inv12.C12_load_own_container_stale2 cf inits progs sched). Qed.
+
+Print Assumptions C12_load_own_container_stale2.
